@@ -892,3 +892,47 @@ pub fn nested_repetition_edges(rng: &mut Rng) -> String {
     let body = if at_end { format!("{}{}{}", rng.pick_str(START), rng.pick_str(MID), inn) } else { format!("{}{}{}", inn, rng.pick_str(MID), rng.pick_str(&["/", "", "/**", "a"])) };
     format!("{}<{}{}>{}", l, body, rng.pick_str(BNDS), r)
 }
+
+/// Groups whose body or branch is exactly one token that is itself a group (one to three levels
+/// of such direct nesting), the innermost holding boundaries, tree wildcards or zero-or-more
+/// wildcards at its edges, with text before and/or after the outermost group. Position is composed
+/// through every level here with nothing in between (round 7, C10-H: a composition that was wrong
+/// only when a level reported "only token" went unseen).
+pub fn directly_nested_groups(rng: &mut Rng) -> String {
+    const INNER: &[&str] = &[
+        "a/**/", "c/**/", "/**/a", "**/a", "a/**", "a/", "/a", "a", "b*", "*b", "a/b", "c/d/", "?", "a/**/b", "**/a/**", "/a/", "x*y",
+    ];
+    const BNDS: &[&str] = &[":1,2", ":2", ":1,", "", ":0,1", ":1", ":2,3", ":0,"];
+    fn group(rng: &mut Rng, levels: usize) -> String {
+        if levels == 0 {
+            return rng.pick_str(INNER).to_string();
+        }
+        let lonely = |rng: &mut Rng| group(rng, levels - 1);
+        if rng.chance(1, 2) {
+            // An alternation: the lonely nested group in one branch, plain pieces in the others.
+            let n = rng.range(1, 3);
+            let at = rng.below(n);
+            let mut out = String::from("{");
+            for j in 0..n {
+                if j > 0 {
+                    out.push(',');
+                }
+                if j == at {
+                    out.push_str(&lonely(rng));
+                }
+                else {
+                    out.push_str(rng.pick_str(INNER));
+                }
+            }
+            out.push('}');
+            out
+        }
+        else {
+            format!("<{}{}>", lonely(rng), rng.pick_str(BNDS))
+        }
+    }
+    let levels = rng.range(2, 3);
+    let g = group(rng, levels);
+    let (l, r) = *rng.pick(&[("", "b"), ("", "b"), ("x", ""), ("x", "y"), ("", "/y"), ("x/", ""), ("", ""), ("", "*"), ("x", "/**"), ("**/", "b")]);
+    format!("{}{}{}", l, g, r)
+}
